@@ -80,6 +80,42 @@ theorem stopLE2_nil (d : Gen.D) (L : Nat) : stopLE2 d L [] = true := rfl
 /-! ### what may start a rendering: additionally not `WHEN` (after `CASE x`) and not `DISTINCT` (first argument of an aggregate) -/
 def hdTok (t : Tok) : Bool := startTok t && !["WHEN", "DISTINCT"].contains (up t.src)
 
+/-! ### an upper bound for the number of TOP-LEVEL tokens of a rendering (whatever brackets are added) -/
+mutual
+def tl : Expr → Nat
+  | .column (some _) _ => 3
+  | .wildcard (some _) => 3
+  | .func _ _ _ => 4
+  | .agg _ _ _ => 2
+  | .caseCond cs els => 2 + tlA cs + tlO els
+  | .caseVal v cs els => 2 + tl v + tlA cs + tlO els
+  | .unary _ e => 1 + tl e
+  | .compute l _ r => tl l + 1 + tl r
+  | .kw _ _ l r => tl l + 2 + tl r
+  | .between _ b f t => tl b + 3 + tl f + tl t
+  | .compare _ l r => tl l + 1 + tl r
+  | .not_ e => 1 + tl e
+  | .and_ l r => tl l + 1 + tl r
+  | .xor l r => tl l + 1 + tl r
+  | .or_ l r => tl l + 1 + tl r
+  | _ => 1
+def tlA : List (Expr × Expr) → Nat
+  | [] => 0
+  | (w, t) :: r => 2 + tl w + tl t + tlA r
+def tlO : Option Expr → Nat
+  | none => 0
+  | some y => 1 + tl y
+end
+theorem tl_pos (e : Expr) : 1 ≤ tl e := by
+  cases e with
+  | column t c => cases t <;> simp [tl]
+  | wildcard t => cases t <;> simp [tl]
+  | _ => first | (simp only [tl]; omega) | simp [tl]
+/-- every value of an `IN` list has at most 20 top-level tokens (what is inside brackets and calls does not count): the comma
+splitter spends one unit of fuel per token BEFORE the value is parsed, which the uniform bound `20 * tokens` only covers for short
+values -/
+def shortL (vs : List Expr) : Bool := vs.all (fun v => decide (tl v ≤ 20))
+
 /-! ### the fragment -/
 /-- a name token (bare or back-quoted) that reads back as the name, is no word of the grammar, and is an identifier for the parser -/
 def nmOK (d : Gen.D) (t : Tok) (n : String) : Bool :=
@@ -133,7 +169,7 @@ def Frag2O (d : Gen.D) : Option Expr → Bool
   | some y => Frag2 d y
 /-- the right side of `IN`: a non-empty value list -/
 def inRhs (d : Gen.D) : Expr → Bool
-  | .subValue vs => Frag2L d vs && !vs.isEmpty
+  | .subValue vs => Frag2L d vs && !vs.isEmpty && shortL vs
   | _ => false
 end
 
